@@ -350,6 +350,50 @@ def run_resume(ctx, idx0):
                             ctx.violation(sname_, kind + ';projection', 'iterate-mismatch', first_k=mm[0], rel=mm[1], niter=niter)
                     except Exception as e:
                         ctx.violation(sname_, kind + ';projection', 'raises:' + type(e).__name__, message=str(e)[:200])
+                # Kaczmarz with projection and a callback after every partial update: what the callback sees are iterates
+                # (projected), the last one is the returned point
+                ctx.ev('exactly-once')
+                try:
+                    r = trace.Recorder()
+                    xk = x0.copy()
+                    S.kaczmarz([A, 0.5 * A], xk, [b, 0.5 * b], max(niter, 1), omega=om, projection=proj, callback=r, callback_loop='inner')
+                    ref_its = []
+                    xr = x0.copy()
+                    for _ in range(max(niter, 1)):
+                        for o_, r_ in ((A, b), (0.5 * A, 0.5 * b)):
+                            xr = xr + om * o_.adjoint(r_ - o_(xr))
+                            proj(xr)
+                            ref_its.append(trace.flat(xr).copy())
+                    mm = trace.first_mismatch(r.iterates, ref_its)
+                    if len(r) != len(ref_its):
+                        ctx.violation('kaczmarz', kind + ';projection;loop=inner', 'callback-count', got=len(r), want=len(ref_its))
+                    elif mm:
+                        ctx.violation('kaczmarz', kind + ';projection;loop=inner', 'iterate-mismatch', first_k=mm[0], rel=mm[1])
+                    elif not rel_close(xk, r.iterates[-1], 1e-12):
+                        ctx.violation('kaczmarz', kind + ';projection;loop=inner', 'final-iterate-not-last-callback')
+                except Exception as e:
+                    ctx.violation('kaczmarz', kind + ';projection;loop=inner', 'raises:' + type(e).__name__, message=str(e)[:200])
+                # Douglas-Rachford: two operators with *equal* ranges are the same algorithm as one BroadcastOperator with a
+                # SeparableSum (equal dual steps) - iterate by iterate
+                if kind == 'matrix':
+                    ctx.ev('reference-equality')
+                    try:
+                        A2 = odl.MatrixOperator(rng.normal(size=A.matrix.shape), domain=X, range=Y)
+                        b2 = util.rand_element(Y, rng)
+                        g1, g2 = S.L2NormSquared(Y).translated(b), S.L1Norm(Y).translated(b2)
+                        nrm = np.sqrt(np.linalg.norm(A.matrix, 2) ** 2 + np.linalg.norm(A2.matrix, 2) ** 2)
+                        tau_, sig_ = 1.0 / nrm, 1.5 / nrm
+                        r1, r2 = trace.Recorder(), trace.Recorder()
+                        xa, xb = x0.copy(), x0.copy()
+                        S.douglas_rachford_pd(xa, f, [g1, g2], [A, A2], max(niter, 2), tau=tau_, sigma=[sig_, sig_], callback=r1)
+                        S.douglas_rachford_pd(xb, f, [S.SeparableSum(g1, g2)], [odl.BroadcastOperator(A, A2)], max(niter, 2), tau=tau_, sigma=[sig_], callback=r2)
+                        mm = trace.first_mismatch(r1.iterates, r2.iterates, 1e-8)
+                        if mm:
+                            ctx.violation('douglas_rachford_pd', 'matrix;equal-ranges;f=%s' % fn, 'iterate-mismatch', first_k=mm[0], rel=mm[1], against='BroadcastOperator formulation')
+                    except (NotImplementedError, odl.OpNotImplementedError):
+                        ctx.skip('a proximal is not offered')
+                    except Exception as e:
+                        ctx.violation('douglas_rachford_pd', 'matrix;equal-ranges;f=%s' % fn, 'raises:' + type(e).__name__, message=str(e)[:200])
                 # MLEM needs positivity
                 if kind == 'matrix':
                     Ap = odl.MatrixOperator(np.abs(A.matrix), domain=X, range=Y)
